@@ -6,6 +6,7 @@ CONSTANTS
   MaxSteps = 7
   Variant = "ok"
   WithSv = FALSE
+  Stamps = "now"
   SvMode = "asWritten"
 INVARIANT TypeOK
 INVARIANT Coherent
